@@ -114,7 +114,60 @@ def run(driver):
     for k, v in exp.items():
         if c.get(k) != v:
             note("Constants", "%s: generated %r != live %r" % (k, c.get(k), v))
+    # Gen/GeneAttributes (C18): the generated skip lists against the behaviour of the live set_gene_attributes
+    try:
+        at = driver.run([vlib.req("C18.attr_tables")])[0]
+        live = live_gene_attribute_tables(at if isinstance(at, dict) else {})
+        for k, v in live.items():
+            got = at.get(k) if isinstance(at, dict) else None
+            got = sorted(got) if isinstance(got, list) else got
+            if got != v:
+                note("GeneAttributes", "%s: generated %r != live %r" % (k, got, v))
+    except Exception as ex:
+        note("GeneAttributes", "cross-check could not run: %s: %s" % (type(ex).__name__, ex))
     return bad
+
+
+ATTR_CANDIDATES = ["gene_id", "transcript_id", "ID", "Parent", "level", "exons", "Canonical", "exon", "exon_id", "exon_number",
+                   "transcripts", "tag", "gene_name", "transcript_name", "gene_type", "similar_reference_id", "alternatives", "Name"]
+
+
+def live_gene_attribute_tables(generated=None):
+    """read the skip lists of the LIVE GeneInfo.set_gene_attributes off its behaviour: stub gene / transcript / exon features
+    carrying every candidate key (the generated entries + a fixed pool) go through the real method; a key is `skipped` iff it
+    does not appear in feature_attributes.  Also the key word the live add_canonical_info_for_model writes."""
+    import types
+    vlib.repo_on_path()
+    gi = importlib.import_module("src.gene_info")
+    aio = importlib.import_module("src.assignment_io")
+    cands = list(ATTR_CANDIDATES)
+    for k in ("gene_skip", "transcript_skip", "exon_skip"):
+        for x in (generated or {}).get(k, []) or []:
+            if x not in cands:
+                cands.append(x)
+
+    class F:
+        def __init__(self, id_, keys, start=5, end=9, strand="+"):
+            self.id, self.start, self.end, self.strand = id_, start, end, strand
+            self.attributes = {k: ["v"] for k in keys}
+    gene, tr, ex = F("G", cands), F("T", cands), F("E", [])
+
+    class DB:
+        def children(self, g, featuretype=None, **kw):
+            return [tr] if "transcript" in featuretype else [ex]
+    stub = types.SimpleNamespace(gene_db_list=[gene], db=DB())
+    gi.GeneInfo.set_gene_attributes(stub)
+    fa = stub.feature_attributes
+
+    def skipped(key):
+        copied = [kv.strip().split(" ")[0] for kv in fa.get(key, "").split(";") if kv.strip()]
+        return sorted(k for k in cands if k not in copied)
+    m = gi.TranscriptModel("chr1", "+", "t", "g", [(1, 4), (15, 18)], gi.TranscriptModelType.novel_not_in_catalog)
+    g = types.SimpleNamespace(reference_region="AAAAGTCCCCCCAGTTTT", all_read_region_start=1, canonical_sites={})
+    aio.IOSupport(types.SimpleNamespace()).add_canonical_info_for_model(m, g)
+    keys = list(m.additional_info.keys())
+    return {"gene_skip": skipped("G"), "transcript_skip": skipped("T"), "exon_skip": skipped("T_5_9_+"),
+            "canonical_key": keys[0] if len(keys) == 1 else keys}
 
 
 _iq = None
